@@ -226,6 +226,10 @@ class _XX:
                     ["tx meta null", "tx iface null"], ["tx basic 8", "tx generic 24 if"]):
             out.append(X("xx:basicmeta:%d" % len(out), pre + ["tx basicmeta", "tx named %s -1" % hx("basic"), "tx basicmeta",
                                                               "tx meta %s" % hx("basic"), "tx iface %s" % hx("basic"), "tx sweep"]))
+        # type_properties<T>::id(): asks without registering, registers once, answers the same id from then on
+        out.append(X("xx:propid", ["tx propid0 ptr", "tx propid0 obj", "tx propid ptr", "tx generic 24 if", "tx propid ptr", "tx propid0 ptr", "tx propid obj",
+                                   "tx propid obj", "tx propid0 obj", "tx traits 2304", "tx traits 2306", "tx sweep"]))
+        out.append(X("xx:propid:obj-first", ["tx propid obj", "tx propid ptr", "tx propid obj", "tx propid ptr", "tx sweep"]))
         out.append(X("xx:fresh", ["tx sweep"] + ["tx traits %d" % i for i in BUILTIN] + ["tx basic 0", "tx basic 12", "tx generic 0", "tx generic 40 f"]))
         for kind in ("basic", "iface"):
             cap = CAP[kind]
